@@ -24,6 +24,8 @@ trait Tr { fn tm(Self) -> int32; fn tk(Self, int32) -> int32; }
 impl S { fn get(self: S) -> int32 { self.x } fn add(self: S, k: int32) -> int32 { self.x + k } fn make(k: int32) -> S { S { x: k, y: \"m\" } } fn zero() -> int32 { 0 } }
 impl[T] Box[T] { fn unbox(self: Box[T]) -> T { self.v } fn wrap(v: T) -> Box[T] { Box { v: v } } }
 impl Box[int32] { fn only_int(self: Box[int32]) -> int32 { self.v } }
+struct Vv[T] { v: T }
+impl[T] Box[Vv[T]] { fn first(self: Box[Vv[T]]) -> T { self.v.v } }
 impl E { fn code(self: E) -> int32 { 1 } fn first() -> E { A } }
 impl Tr for S { fn tm(self: S) -> int32 { 1 } fn tk(self: S, k: int32) -> int32 { k } }
 impl Tr for int32 { fn tm(self: int32) -> int32 { 2 } fn tk(self: int32, k: int32) -> int32 { k } }
@@ -47,10 +49,13 @@ const LOCALS: &str = "    let s: S = mk();
     let bb = Box { v: b };
     let c = |q: S| 0;
     let u0 = ();
+    let ba: Box[int32] = Box { v: 1 };
+    let bv: Box[Vv[int32]] = Box { v: Vv { v: 2 } };
+    let bst: Box[string] = Box { v: \"t\" };
 ";
 
 /// (name, receiver expression) evaluated in `main` after LOCALS
-const MAIN_RECEIVERS: [(&str, &str); 30] = [
+const MAIN_RECEIVERS: [(&str, &str); 33] = [
     ("struct-local", "s"),
     ("struct-with-struct-field", "w"),
     ("field-of-struct-type", "w.inner"),
@@ -81,6 +86,10 @@ const MAIN_RECEIVERS: [(&str, &str); 30] = [
     ("array-get", "array_get(a, 0)"),
     ("method-call-result", "b.unbox()"),
     ("literal", "7"),
+    // annotated instances: an impl for `Box[int32]` and one for `Box[Vv[T]]` exist next to `impl[T] Box[T]`
+    ("annotated-generic-instance-int", "ba"),
+    ("annotated-instance-of-nested-impl-pattern", "bv"),
+    ("annotated-generic-instance-string", "bst"),
 ];
 
 /// (name, whole program with § at the cursor)
@@ -108,7 +117,7 @@ const NAMESPACES: [&str; 10] = ["E", "Opt", "S", "W", "Box", "Tr", "int32", "str
 
 fn project_files() -> Vec<(&'static str, &'static str)> {
     vec![
-        ("Lib/lib.gom", "package Lib\nimport Deep\n\nstruct P { a: int32 }\nenum Shape { Dot, Line(int32) }\ntrait Show { fn show(Self) -> string; }\nimpl P { fn geta(self: P) -> int32 { self.a } }\nimpl Show for P { fn show(self: P) -> string { \"P\" } }\nfn mk(k: int32) -> P { P { a: k } }\nfn deep() -> int32 { Deep::secret() }\n"),
+        ("Lib/lib.gom", "package Lib\nimport Deep\n\nstruct P { a: int32 }\nenum Shape { Dot, Line(int32) }\nenum Color { Cobalt, Red }\ntrait Show { fn show(Self) -> string; }\nimpl P { fn geta(self: P) -> int32 { self.a } }\nimpl Show for P { fn show(self: P) -> string { \"P\" } }\nfn mk(k: int32) -> P { P { a: k } }\nfn deep() -> int32 { Deep::secret() }\n"),
         ("Deep/lib.gom", "package Deep\n\nstruct Hidden { h: int32 }\nenum Kind { K1, K2 }\ntrait Quiet { fn q(Self) -> int32; }\nfn secret() -> int32 { 7 }\n"),
         ("Other/lib.gom", "package Other\n\nfn unused() -> int32 { 1 }\n"),
     ]
@@ -205,6 +214,22 @@ fn is_resolution_error(e: &str) -> bool {
     el.contains("unresolved") || el.contains("not found") || el.contains("unknown") || el.contains("not imported") || el.contains("no such") || el.starts_with("panic")
 }
 
+/// `Path::` completion where the path is not an expression: (name, project?, text with § at the
+/// cursor, what to write at § for the text to be well-formed). In the middle-segment context the
+/// offered item replaces the whole segment around the cursor.
+fn position_contexts() -> Vec<(&'static str, bool, String, &'static str)> {
+    vec![
+        ("type-position-own-package", false, format!("{}fn probe9(q: Main::§) -> int32 {{ 0 }}\nfn main() {{ () }}\n", PRELUDE), "S"),
+        ("pattern-position-enum", false, format!("{}fn probe9(e0: E) -> int32 {{\n    match e0 {{\n        E::§ => 0,\n        _ => 1,\n    }}\n}}\nfn main() {{ () }}\n", PRELUDE), "A"),
+        ("pattern-position-generic-enum", false, format!("{}fn probe9(e0: Opt[int32]) -> int32 {{\n    match e0 {{\n        Opt::§ => 0,\n        _ => 1,\n    }}\n}}\nfn main() {{ () }}\n", PRELUDE), "Non"),
+        ("type-position-imported-package", true, "package Main\nimport Lib\n\nfn probe9(q: Lib::§) -> int32 { 0 }\nfn main() { () }\n".to_string(), "P"),
+        ("let-annotation-imported-package", true, "package Main\nimport Lib\n\nfn any[T]() -> T { any() }\nfn main() {\n    let zq: Lib::§ = any();\n    ()\n}\n".to_string(), "P"),
+        ("pattern-position-imported-enum", true, "package Main\nimport Lib\n\nfn probe9(e0: Lib::Shape) -> int32 {\n    match e0 {\n        Lib::Shape::§ => 0,\n        _ => 1,\n    }\n}\nfn main() { () }\n".to_string(), "Dot"),
+        ("middle-segment-imported-enum", true, "package Main\nimport Lib\n\nfn main() {\n    let zq = Lib::Co§lor::Red;\n    ()\n}\n".to_string(), ""),
+        ("middle-segment-own-enum", false, format!("{}fn main() {{\n    let zq = Main::§E::A;\n    ()\n}}\n", PRELUDE), ""),
+    ]
+}
+
 pub struct Completions;
 
 impl Family for Completions {
@@ -215,7 +240,7 @@ impl Family for Completions {
         &["C20"]
     }
     fn rule(&self) -> &'static str {
-        "dot completion at `recv.` for 30 receiver expressions in main (locals of struct / struct-with-struct-field / two instances of a generic struct / Ref / Vec / tuple / array / enum / generic enum / int32 / string / dyn / Ref of a generic instance / nested generic instance / closure / unit; fields, tuple projections, call and method-call results, ref_get / vec_get / array_get results, a parenthesised receiver, a literal) + 12 other binding contexts (bounded and unbounded type parameter, generic struct of a parameter, closure parameter, pattern variables, self in an inherent and in a generic method, function parameters of struct and Ref type, a shadowed local, a local redefined later); `Ns::` completion for 10 single-file namespaces (enum, generic enum, struct with / without methods, generic struct, trait, int32, string, the own package, an unknown name) and 9 namespaces of a 4-package project (imported package, its enum / struct / trait, a package only reachable through the import, one of its enums, a package present on disk but not imported, the own package, a prefix of a package name); oracle: the request returns without panic and every offered item, inserted at the cursor (methods with synthesised arguments, variants with synthesised payloads, types in a parameter position, traits in a bound), type-checks; where arguments cannot be synthesised only resolution errors count. non-trivial = cursors at which at least one item was offered; distinct = distinct (cursor, item)"
+        "dot completion at `recv.` for 33 receiver expressions in main (locals of struct / struct-with-struct-field / two instances of a generic struct / Ref / Vec / tuple / array / enum / generic enum / int32 / string / dyn / Ref of a generic instance / nested generic instance / closure / unit; fields, tuple projections, call and method-call results, ref_get / vec_get / array_get results, a parenthesised receiver, a literal) + 12 other binding contexts (bounded and unbounded type parameter, generic struct of a parameter, closure parameter, pattern variables, self in an inherent and in a generic method, function parameters of struct and Ref type, a shadowed local, a local redefined later); `Ns::` completion for 10 single-file namespaces (enum, generic enum, struct with / without methods, generic struct, trait, int32, string, the own package, an unknown name) and 9 namespaces of a 4-package project (imported package, its enum / struct / trait, a package only reachable through the import, one of its enums, a package present on disk but not imported, the own package, a prefix of a package name); 8 cursors where the path is not an expression (a parameter type and a let annotation naming the own / an imported package, a pattern naming an enum / a generic enum / an imported enum, a cursor inside a middle segment of a path); oracle: the request returns without panic and every offered item, inserted at the cursor (methods with synthesised arguments, variants with synthesised payloads, types in a parameter position, traits in a bound), type-checks; where arguments cannot be synthesised only resolution errors count. non-trivial = cursors at which at least one item was offered; distinct = distinct (cursor, item)"
     }
     fn cases(&self, _tier: Tier) -> Box<dyn Iterator<Item = Value> + '_> {
         let mut v = Vec::new();
@@ -229,12 +254,97 @@ impl Family for Completions {
             v.push(json!({"kind": "project-colon", "ns": ns}));
         }
         v.push(json!({"kind": "project-dot", "ns": "p"}));
+        for (n, _, _, _) in position_contexts() {
+            v.push(json!({"kind": "position", "name": n}));
+        }
         Box::new(v.into_iter())
     }
     fn run(&self, case: &Value, ctx: &mut Ctx) -> Report {
         let mut rep = Report::default();
         let kind = case["kind"].as_str().unwrap();
         let dummy = ctx.scratch.single_path();
+        if kind == "position" {
+            let name = case["name"].as_str().unwrap();
+            let (_, project, marked, good) = position_contexts().into_iter().find(|(n, _, _, _)| *n == name).unwrap();
+            let site = format!("position={}", name);
+            let path = if project {
+                let root = ctx.scratch.fresh_dir("cpos");
+                for (f, src) in project_files() {
+                    let p = root.join(f);
+                    std::fs::create_dir_all(p.parent().unwrap()).unwrap();
+                    std::fs::write(p, src).unwrap();
+                }
+                root.join("main.gom")
+            } else {
+                dummy
+            };
+            let cur = marked.find('§').unwrap();
+            let text = marked.replace('§', "");
+            // the identifier characters around the cursor are what an accepted completion replaces
+            let is_id = |c: char| c.is_alphanumeric() || c == '_';
+            let seg_start = text[..cur].rfind(|c: char| !is_id(c)).map(|i| i + 1).unwrap_or(0);
+            let seg_end = cur + text[cur..].find(|c: char| !is_id(c)).unwrap_or(text.len() - cur);
+            let with = |ins: &str| format!("{}{}{}", &text[..seg_start], ins, &text[seg_end..]);
+            let well_formed = if good.is_empty() { text.clone() } else { with(good) };
+            if let Err(e) = typechecks_at(&path, &well_formed) {
+                rep.tag("machinery:completion-template-ill-typed");
+                rep.sample = Some(json!({"site": site, "error": e, "text": well_formed}));
+                return rep;
+            }
+            let (line, col) = line_col(&text, cur);
+            let items = match guarded(|| colon_colon_completions(&path, &text, line, col)) {
+                Ok(Some(v)) => v,
+                Ok(None) => {
+                    rep.tag("colon:none");
+                    rep.outcome = Some(format!("{}:none", site));
+                    return rep;
+                }
+                Err(p) => {
+                    rep.findings.push(Finding { property: "C20", class: "query.panic.colon".into(), site: format!("{};msg={}", site, p), detail: p, replay: json!({"kind": "query", "request": "colon", "text": text, "line": line, "col": col}) });
+                    return rep;
+                }
+            };
+            rep.tag(format!("colon-items:{}", items.len().min(9)));
+            if !items.is_empty() {
+                rep.nontrivial_key = Some(site.clone());
+            }
+            let mut offered = Vec::new();
+            let mut checks = 0u64;
+            for it in items {
+                checks += 1;
+                offered.push(it.name.clone());
+                rep.more_keys.push(md(&format!("{}|{}", site, it.name)));
+                // a variant with payloads is written with a wildcard per payload in a pattern, a generic
+                // type with arguments in a type
+                let mut forms = vec![it.name.clone()];
+                if name.starts_with("pattern") {
+                    if let Some(ps) = it.detail.as_deref().and_then(fn_params) {
+                        if !ps.is_empty() {
+                            forms = vec![format!("{}({})", it.name, vec!["_"; ps.len()].join(", "))];
+                        }
+                    }
+                } else if name.starts_with("type") || name.starts_with("let-annotation") {
+                    forms.push(format!("{}[int32]", it.name));
+                }
+                let results: Vec<Result<(), String>> = forms.iter().map(|f| typechecks_at(&path, &with(f))).collect();
+                if results.iter().all(|r| r.is_err()) {
+                    let e = results[0].clone().err().unwrap_or_default();
+                    rep.findings.push(Finding {
+                        property: "C20",
+                        class: "completion.does-not-typecheck".into(),
+                        site: format!("{};item={}", site, it.name),
+                        detail: format!("offered `{}` at this cursor but the text with it inserted fails: {}", it.name, e),
+                        replay: json!({"kind": "text-typecheck", "text": with(&forms[0]), "path": path.to_string_lossy()}),
+                    });
+                } else {
+                    rep.tag("position-probe:typechecks");
+                }
+            }
+            rep.outcome = Some(format!("{}:{}", site, offered.join(",")));
+            rep.sample = Some(json!({"site": site, "offered": offered}));
+            rep.sub_evaluations = checks.max(1);
+            return rep;
+        }
         let (path, marked, site): (std::path::PathBuf, String, String) = match kind {
             "dot" => {
                 let name = case["name"].as_str().unwrap();
